@@ -1146,21 +1146,20 @@ def coq_lop(op):
 
 
 def gen_lru_ops(rng, strings):
+    """callobj / mut name an EARLIER OPERATION: its result object"""
     pool = rng.sample(strings, min(len(strings), rng.randint(1, 3)))
-    ops, nobj = [], 0
+    ops = []
     junk = [[], [("zz", "GET")], [(0, "GET"), ("q", "GETATTR")]]
     for _ in range(rng.randint(6, 14)):
         r = rng.random()
-        if r < 0.6 or nobj == 0:
+        if r < 0.6 or not ops:
             ops.append(("call", rng.choice(pool), rng.choice(ROOT_ARGS)))
-            nobj += 1            # an upper bound: a hit returns an old object
         elif r < 0.72:
             ops.append(("alloc", rng.choice("LT"), rng.choice(junk[1:])))
-            nobj += 1
         elif r < 0.85:
-            ops.append(("callobj", rng.randrange(nobj), rng.choice(ROOT_ARGS)))
+            ops.append(("callobj", rng.randrange(len(ops)), rng.choice(ROOT_ARGS)))
         else:
-            ops.append(("mut", rng.randrange(nobj), rng.choice(junk)))
+            ops.append(("mut", rng.randrange(len(ops)), rng.choice(junk)))
     return ops
 
 
@@ -1168,69 +1167,110 @@ def canon_els(els):
     return [[canon_or_nonatom(x), "G" if act == "GET" else "A"] for x, act in els]
 
 
+def _path_caches():
+    import deepdiff.path as P
+    return [f for f in vars(P).values() if callable(getattr(f, "cache_clear", None)) and callable(getattr(f, "cache_info", None))]
+
+
 def run_lru_ops(ops):
-    """Returns (observable for c09_lru_trace, failure or None).  Object identities are numbered in
-    the order the objects are first seen (the empty tuple is a singleton of CPython: numbered per call key)."""
-    from deepdiff.path import _path_to_elements, _parse_path_to_elements, parse_path
-    _parse_path_to_elements.cache_clear()
+    """Returns ([per-op results without identities, full observable for c09_lru_trace], failure or None).
+    Reference for every call: the same call made on empty caches.  Object identities are numbered in the
+    order the objects are first seen (the empty tuple is a singleton of CPython: numbered per call key)."""
+    from deepdiff.path import _path_to_elements, parse_path
+    caches = _path_caches()
+
+    def clear():
+        for f in caches:
+            f.cache_clear()
+
+    def typed(els):
+        return [(type(x).__name__, x, act) for x, act in els]
+    ref = {}
+    try:
+        for op in ops:
+            if op[0] == "call" and (op[1], op[2]) not in ref:
+                clear()
+                ref[(op[1], op[2])] = typed(_path_to_elements(op[1], root_element=op[2]))
+    except Exception as e:
+        return None, "the path API raised %s: %s" % (type(e).__name__, e)
+    clear()
     objs, tags, obs, why = [], [], [], None
 
     def ident(r, key):
+        singleton = isinstance(r, tuple) and len(r) == 0
         for i, o in enumerate(objs):
-            if (o is r and len(r) > 0) or (len(r) == 0 and isinstance(r, tuple) and key is not None and tags[i] == key):
+            if singleton:
+                if key is not None and tags[i] == key:
+                    return i
+            elif o is r:
                 return i
         objs.append(r)
-        tags.append(key if (isinstance(r, tuple) and len(r) == 0) else None)
+        tags.append(key if singleton else None)
         return len(objs) - 1
 
     def show(r):
         return ["T" if isinstance(r, tuple) else "L", canon_els(r)]
+    results, rids = [], []       # the object each operation returned (None: no object) and its number
     for op in ops:
+        if results:
+            rids.append(obs[-1][0] if isinstance(obs[-1], list) else None)
+        results.append(None)
         try:
             if op[0] == "call":
                 r = _path_to_elements(op[1], root_element=op[2])
-                ref = _parse_path_to_elements.__wrapped__(op[1], op[2])
-                if why is None and not (isinstance(r, tuple) and list(r) == list(ref) and all(type(a[0]) is type(b[0]) for a, b in zip(r, ref))):
-                    why = "_path_to_elements(%r, root_element=%r) returned %r %r through the cache, the function itself computes %r" % (
-                        op[1], op[2], type(r).__name__, r, ref)
+                what = "_path_to_elements(%r, root_element=%r)" % (op[1], op[2])
+                if why is None and not (isinstance(r, (tuple, list)) and typed(r) == ref[(op[1], op[2])]):
+                    why = "%s returned %r in this trace and %r on an empty cache" % (what, r, [(x, a) for _t, x, a in ref[(op[1], op[2])]])
+                if why is None and isinstance(r, list) and any(o is r for o in objs):
+                    why = "%s returned a list object that an earlier call had returned (or the caller had passed in)" % what
                 obs.append([ident(r, ("call", op[1], op[2])), show(r)])
+                results[-1] = r
             elif op[0] == "callobj":
-                if op[1] >= len(objs):
+                arg = results[op[1]]
+                if arg is None:
                     obs.append("RAISE")
                     continue
-                r = _path_to_elements(objs[op[1]], root_element=op[2])
-                if why is None and r is not objs[op[1]]:
-                    why = "_path_to_elements(<%s object>) did not return the object itself" % type(objs[op[1]]).__name__
-                obs.append([ident(r, None), show(r)])
+                r = _path_to_elements(arg, root_element=op[2])
+                if why is None and r is not arg and typed(r) != typed(arg):
+                    why = "_path_to_elements(<%s object %r>) returned %r" % (type(arg).__name__, arg, r)
+                obs.append([rids[op[1]] if r is arg else ident(r, None), show(r)])
+                results[-1] = r
             elif op[0] == "alloc":
                 r = list(op[2]) if op[1] == "L" else tuple(op[2])
                 obs.append([ident(r, None), show(r)])
+                results[-1] = r
             else:
-                if op[1] >= len(objs):
+                arg = results[op[1]]
+                if arg is None:
                     obs.append("RAISE")
                     continue
                 try:
-                    objs[op[1]][:] = list(op[2])
+                    arg[:] = list(op[2])
                     obs.append("-")
                 except TypeError:
                     obs.append("RAISE")
         except Exception as e:
             return None, "the path API raised %s: %s" % (type(e).__name__, e)
-    info = _parse_path_to_elements.cache_info()
+    infos = [f.cache_info() for f in caches]
     # parse_path returns a new list at every call
     for p in sorted({op[1] for op in ops if op[0] == "call"}):
         a = parse_path(p)
-        want = [x for x, _a in _parse_path_to_elements.__wrapped__(p)][1:]
+        want = [(t, x) for t, x, _a in ref[(p, None)]] if (p, None) in ref else [(type(x).__name__, x) for x in a]
         a.append("junk")
         b = parse_path(p)
-        if why is None and not (isinstance(b, list) and b == want and b is not a):
-            why = "parse_path(%r) returned %r after the caller changed the list of an earlier call; the function itself computes %r" % (p, b, want)
-    return [obs, info.hits, info.misses, info.currsize], why
+        if why is None and not (isinstance(b, list) and [(type(x).__name__, x) for x in b] == want and b is not a):
+            why = "parse_path(%r) returned %r after the caller changed the list an earlier call returned; expected %r" % (p, b, [x for _t, x in want])
+    full = [obs, sum(i.hits for i in infos), sum(i.misses for i in infos), sum(i.currsize for i in infos)]
+    content = [o[1] if isinstance(o, list) else o for o in obs]
+    return [content, full], why
 
 
 def _lru_task(ops):
     logging.disable(logging.CRITICAL)
-    obs, why = run_lru_ops(ops)
+    try:
+        obs, why = run_lru_ops(ops)
+    except BaseException as e:           # StopIteration out of a worker would corrupt pool.map
+        obs, why = None, "the path API raised %s: %s" % (type(e).__name__, e)
     return ops, obs, why
 
 
@@ -1264,7 +1304,7 @@ def lru_calls(ctx, n):
     traces += [gen_lru_ops(rng, strings) for _ in range(n)]
     with mp.get_context("fork").Pool(core.NCPU) as pool_:
         res = pool_.map(_lru_task, traces, chunksize=16)
-    cases = []
+    cases, fulls = [], []
     for ops, obs, why in res:
         ctx.seen(("lru", repr(ops)), nontrivial=True)
         ctx.count("lru_calls:traces")
@@ -1272,9 +1312,151 @@ def lru_calls(ctx, n):
         if why:
             ctx.fail(lru_case(ops, why), why)
         if obs is not None:
-            ctx.count("lru_calls:cache_hits", obs[1])
-            cases.append(("c09_lru_trace_or [%s] (%s)" % ("; ".join(coq_lop(o) for o in ops), core.sx(obs)), obs, lru_case(ops)))
+            content, full = obs
+            ctx.count("lru_calls:cache_hits", full[1])
+            opsc = "[%s]" % "; ".join(coq_lop(o) for o in ops)
+            cases.append(("c09_lru_content_or %s (%s)" % (opsc, core.sx(content)), content, lru_case(ops)))
+            fulls.append("(%s, %s)" % (opsc, core.sx(full)))
     ctx.coq_cases("lru_calls", HEADER2, cases, shard=150, label="lru_calls")
+    # object identities (which calls return the very same tuple) and the cache statistics (hits, misses,
+    # currsize) are not part of what the property demands: agreement with the model is recorded, not required
+    agree = 0
+    for i in range(0, len(fulls), 400):
+        txt = ctx.coq_eval("lru_full_%d" % i, HEADER2, "show_count (count_lru_full_agree [%s])" % "; ".join(fulls[i:i + 400]))
+        if txt is not None:
+            agree += int(txt.split()[0])
+    ctx.count("lru_calls:traces_whose_object_identities_and_cache_statistics_agree_with_the_model", agree)
+
+
+# ---- parse_path / stringify_path with every argument shape ---------------------------------
+# (root_element None / ('root', GETATTR) / ('root', GET) / other names, include_actions, quote_str,
+#  lists and tuples of keys, lists of (element, action) pairs: the has_actions sniffing)
+
+HEADER3 = HEADER.replace("Path.PathShow.", "Path.PathShow Path.PathCacheModel Path.PathActsModel Path.PathActsShow.")
+SNIFF_KEYS = ["GET", "GETATTR", "aGET", "xG", "GE", "G", "aGETATTR", "T", b"GET", b"aG"]
+QUOTE_STRS = ["'{}'", "'{}'", None, '"{}"']
+
+
+def coq_quote_fmt(q):
+    return {"'{}'": "QS", None: "None", '"{}"': "QS_DOUBLE"}[q]
+
+
+def coq_sp_items(items):
+    out = []
+    for it in items:
+        if it[0] == "key":
+            out.append("SPKey %s" % values.atom_to_coq(it[1]))
+        else:
+            out.append("SPPair %s %s" % (values.atom_to_coq(it[1]), it[2]))
+    return "[" + "; ".join(out) + "]"
+
+
+def observe_shapes(ks, seed):
+    """Returns (correspondence cases [(coq expr, expected)], clause, failure)."""
+    from deepdiff import DeepDiff, parse_path
+    from deepdiff.path import stringify_path
+    rng = random.Random(seed)
+    raw = [a for _t, a in ks]
+    cases, clause, why = [], None, None
+
+    def fail(c, w):
+        nonlocal clause, why
+        if why is None:
+            clause, why = c, w
+    p = None
+    if ks:
+        d = DeepDiff(build(ks, 1, None), build(ks, 2, None), ignore_private_variables=False)
+        if list(d.keys()) == ["values_changed"] and len(d["values_changed"]) == 1:
+            p = list(d["values_changed"])[0]
+        if not isinstance(p, str):
+            return [], "report", "DeepDiff did not report one path string: %r" % (d,)
+    else:
+        p = "root"
+    ok = path_ok(ks)
+    # -- parse_path with every root_element / include_actions
+    for re in [None, ("root", "GETATTR"), ("root", "GET"), ("r", "GET")]:
+        for incl in (False, True):
+            got = parse_path(p, root_element=re, include_actions=incl)
+            if incl:
+                exp = ["dicts", [[canon_or_nonatom(g["element"]), "G" if g["action"] == "GET" else "A"] for g in got]]
+                good = len(got) == len(raw) and all(set(g) == {"element", "action"} and typed_key_eq(g["element"], k) and g["action"] == "GET"
+                                                    for g, k in zip(got, raw))
+            else:
+                exp = ["keys", [canon_or_nonatom(g) for g in got]]
+                good = len(got) == len(raw) and all(typed_key_eq(g, k) for g, k in zip(got, raw))
+            if ok and not good:
+                fail("parse_path", "parse_path(%r, root_element=%r, include_actions=%r) = %r, the key sequence is %r" % (p, re, incl, got, raw))
+            cases.append(("c09_parse_full_or %s %s %s (%s)" % (core.coq_pystr(p), coq_rootarg(re), core.coq_bool(incl), core.sx(exp)), exp))
+    # -- stringify_path: pairs (the root's action must not matter), keys as list and tuple
+    for act in ("GET", "GETATTR"):
+        got = stringify_path([(k, "GET") for k in raw], root_element=("root", act))
+        if ok and got != p:
+            fail("stringify_path", "stringify_path([(key, 'GET'), ...], root_element=('root', %r)) = %r, the reported path is %r" % (act, got, p))
+    for shape in (list, tuple):
+        got = stringify_path(shape(raw), root_element=("root", "GET"))
+        if ok and got != p:
+            fail("stringify_path", "stringify_path(%s of the keys, root_element=('root','GET')) = %r, the reported path is %r" % (shape.__name__, got, p))
+    # -- random argument shapes against the model
+    for _ in range(3):
+        rn, ract = rng.choice(["root", "root", "", "r"]), rng.choice(["GET", "GETATTR"])
+        qs = rng.choice(QUOTE_STRS)
+        if rng.random() < 0.5:
+            items = [("key", k) for k in raw]
+            arg = [k for k in raw]
+        else:
+            items = [("pair", k, rng.choice(["GET", "GET", "GETATTR"])) for k in raw]
+            arg = [(k, a) for _p, k, a in items]
+        if rng.random() < 0.3:
+            arg = tuple(arg)
+        try:
+            got = ["Some", stringify_path(arg, root_element=(rn, ract), quote_str=qs)]
+        except Exception as e:
+            got = None
+        cases.append(("c09_stringify %s (%s, %s) %s" % (coq_sp_items(items), core.coq_pystr(rn), ract, coq_quote_fmt(qs)), got))
+    return cases, clause, why
+
+
+def _shape_task(args):
+    ks, seed = args
+    logging.disable(logging.CRITICAL)
+    try:
+        cases, clause, why = observe_shapes(ks, seed)
+    except Exception as e:
+        return (args, [], "api", "the path API raised %s: %s" % (type(e).__name__, e))
+    return (args, cases, clause, why)
+
+
+def shape_case(ks, seed, clause=None, why=None):
+    d = {"api_shapes": {"keys": [key_json(k) for k in ks], "seed": seed}, "keys": [key_json(k) for k in ks],
+         "python": "harness.props.c09.observe_shapes(keys, seed): parse_path / stringify_path with every argument shape; keys = %r" % ([a for _t, a in ks],)}
+    if why:
+        d["failure"] = why
+        d["clause"] = clause
+    return d
+
+
+def api_shapes(ctx, pool, n):
+    rng = ctx.rng
+    inputs = [([], 1)]
+    for s_ in SNIFF_KEYS:                 # first keys whose [1] could be taken for an action
+        inputs.append(([("k", s_)], rng.randrange(1 << 30)))
+        inputs.append(([("k", s_), ("k", "b"), ("x", 1)], rng.randrange(1 << 30)))
+    while len(inputs) < n:
+        ks = gen_seq(rng, pool, 3)
+        if rng.random() < 0.3:
+            ks = [("k", rng.choice(SNIFF_KEYS))] + ks[:2]
+        inputs.append((ks, rng.randrange(1 << 30)))
+    with mp.get_context("fork").Pool(core.NCPU) as pool_:
+        res = pool_.map(_shape_task, inputs, chunksize=16)
+    cases = []
+    for (ks, seed), cs, clause, why in res:
+        ctx.seen(("shapes", repr(ks), seed), nontrivial=bool(ks))
+        ctx.count("api_shapes:%s" % ("inside_guard" if path_ok(ks) else "outside_guard"))
+        if why and not (has_bytes(ks) and not all(key_ok(a) for _t, a in ks if isinstance(a, bytes))):
+            ctx.fail(shape_case(ks, seed, clause, why), why)
+        for expr, exp in cs:
+            cases.append((expr, exp, shape_case(ks, seed)))
+    ctx.coq_cases("api_shapes", HEADER3, cases, shard=300, label="api_shapes")
 
 
 # ---- refuted witnesses still fail on the implementation -----------------------
@@ -1316,6 +1498,8 @@ def run(ctx):
         path_calls(ctx, pool, 1200 if ctx.thorough else 150)
     if on("lru_calls"):
         lru_calls(ctx, 1500 if ctx.thorough else 250)
+    if on("api_shapes"):
+        api_shapes(ctx, pool, 1500 if ctx.thorough else 250)
     if on("parser_strings"):
         parser_strings(ctx, 3000 if ctx.thorough else 600)
     if on("extract_positions"):
@@ -1364,7 +1548,16 @@ def replay(ctx, data):
         if why:
             ctx.fail(lru_case(ops, why), why)
         if obs is not None:
-            ctx.coq_cases("replay", HEADER2, [("c09_lru_trace_or [%s] (%s)" % ("; ".join(coq_lop(o) for o in ops), core.sx(obs)), obs, case)])
+            ctx.coq_cases("replay", HEADER2, [("c09_lru_content_or [%s] (%s)" % ("; ".join(coq_lop(o) for o in ops), core.sx(obs[0])), obs[0], case)])
+    elif "api_shapes" in case:
+        a = case["api_shapes"]
+        ks = [key_unjson(j) for j in a["keys"]]
+        cs, clause, why = observe_shapes(ks, a["seed"])
+        ctx.seen(("replay", repr(ks)), nontrivial=True)
+        print("replay: api_shapes keys=%r failure=%r" % ([x for _t, x in ks], why))
+        if why:
+            ctx.fail(shape_case(ks, a["seed"], clause, why), why)
+        ctx.coq_cases("replay", HEADER3, [(e, o, case) for e, o in cs])
     elif "list_edit" in case:
         le = case["list_edit"]
         prefix = [key_unjson(j) for j in le["prefix"]]
